@@ -46,6 +46,9 @@ fn gen(t: &mut Tape, tier: Tier) -> Scenario {
         script = vec![t.range(100, 70_000)];
     }
     sc.set_l("src_script", script);
+    if t.below(3) == 0 && len < 20_000 {
+        sc.set_l("sink_script", gen::draw_script(t));
+    }
     sc.note = format!("{} bytes of plaintext", len);
     if carry_run > 0 {
         sc.note.push_str(&format!("; constructed so that a carry resolves {} pending 0xFF bytes in the range encoder", carry_run));
@@ -59,7 +62,8 @@ fn exec(sc: &Scenario, ctx: &mut Ctx) -> Vec<Violation> {
     let ep = sc.i("ep");
     let plain = sc.b("input");
     let mode = sc.i("enc_mode");
-    let mut packed: Vec<u8> = Vec::new();
+    // the sink may accept only part of each write (benign short writes, no faults)
+    let (mut sink, sink_st) = SimSink::new(None, sc.l("sink_script"), Faults::none(), Faults::none());
     let (v, ro) = run_with_reader(
         ep,
         plain,
@@ -67,12 +71,16 @@ fn exec(sc: &Scenario, ctx: &mut Ctx) -> Vec<Violation> {
         sc.l("src_script"),
         Faults::none(),
         sc.i("bufcap") as usize,
-        &mut packed,
+        &mut sink,
         &OptSpec::default(),
         &RawSpec::default(),
         mode,
         sc.i("enc_size"),
     );
+    let packed: Vec<u8> = sink_st.borrow().accepted.clone();
+    if sink_st.borrow().writes > 0 && !sc.l("sink_script").is_empty() {
+        ctx.stats.hit("arm.sink_with_scripted_short_writes");
+    }
     match ep {
         EP_C_LZMA => match mode {
             0 => ctx.stats.hit("arm.lzma_compress_end_marker"),
@@ -206,7 +214,7 @@ fn wrap_lzma2_in_xz_23(payload: &[u8], content: &[u8]) -> Vec<u8> {
 pub static C04: SimpleProp = SimpleProp {
     id: "C04",
     level: "exploration",
-    rule: "one evaluation = one compression (lzma_compress with each of the 3 header options, lzma2_compress, xz_compress) of a plaintext (lengths 0, 1, 65535, 65536, 65537, 2-3 x 64 KiB, small random; content: constant 0x00/0xFF, random, sparse, sawtooth, long runs with surprises, text-like, and inputs constructed by a guided search so that a carry resolves >= 4 pending 0xFF bytes in the range encoder) read through scripted short reads (1 byte, fixed k, random) or a real BufReader of capacity 1..70000; the output must decode to the input with (a) lzma-rs under the matching option, consuming every emitted byte, (b) the strict reference decoder/parser, (c) liblzma (LZMA2 wrapped into .xz by the reference writer; the header-less layout excepted); non-trivial = non-empty plaintext; distinct by (scenario, event log) hash",
+    rule: "one evaluation = one compression into a sink that accepts whole or (a third of the runs) scripted partial writes (lzma_compress with each of the 3 header options, lzma2_compress, xz_compress) of a plaintext (lengths 0, 1, 65535, 65536, 65537, 2-3 x 64 KiB, small random; content: constant 0x00/0xFF, random, sparse, sawtooth, long runs with surprises, text-like, and inputs constructed by a guided search so that a carry resolves >= 4 pending 0xFF bytes in the range encoder) read through scripted short reads (1 byte, fixed k, random) or a real BufReader of capacity 1..70000; the output must decode to the input with (a) lzma-rs under the matching option, consuming every emitted byte, (b) the strict reference decoder/parser, (c) liblzma (LZMA2 wrapped into .xz by the reference writer; the header-less layout excepted); non-trivial = non-empty plaintext; distinct by (scenario, event log) hash",
     runs_quick: 40_000,
     runs_thorough: 4_000_000,
     both_profiles: false,
